@@ -11,6 +11,8 @@ inductive Err where
   | invalidRef | refConflict | refNotFound | versionNotFound | notFound | targetExists | other
   deriving DecidableEq, Repr
 
+def transactionsDir : Str := "_transactions".toList
+
 def rootLoc : Loc := { path := ['r'], uri := ['r'], branch := none }
 
 /-- `Dataset::find_branch_location` from the main table: the directory (segments below the table root) -/
@@ -48,7 +50,8 @@ def createBranch (an : Char → Bool) (s : St) (hd : Dir) (name : Str) (src : Op
     -- (the harness reports every failure in that situation as `target_exists`)
     if hasDataset s nd then (s, .error .targetExists)
     else match cloneOp s hd nd ver with
-      | none => (s, .error .notFound)
+      -- `do_commit_new_dataset` writes the transaction file before it looks for the source manifest
+      | none => ({ s with junk := (nd ++ [transactionsDir, ['x']]) :: s.junk }, .error .notFound)
       | some s1 =>
         match branchesCreate an s1 name src ver with
         | .ok s2 => (s2, .ok ver)
@@ -81,6 +84,7 @@ def tagGetChecked (an : Char → Bool) (s : St) (t : Str) : Except Err RefTarget
 /-- is there any object below the directory `p` (local file system: does the directory exist) -/
 def existsUnder (s : St) (p : List Str) : Bool :=
   s.mans.any (fun e => p.isPrefixOf (manifestPath e.1.1 e.1.2)) || s.files.any (fun e => p.isPrefixOf (filePath e.1))
+    || s.junk.any (fun q => p.isPrefixOf q)
 
 /-- `Branches::delete(branch, force)`: the contents file is deleted first, then the cleanup directory is removed
 (`remove_dir_all` of a directory that does not exist reports `NotFound`, which `cleanup_branch_directories` only
